@@ -290,6 +290,6 @@ func vh_C06_client_resub() {
 	// compensateRacedPresence): a removal issued for the OLD subscription (by the
 	// tick's compensation or by the losing/late unsubscribe) lands after the new
 	// subscribe added its entry.
-	vKnown("C06-resubscribe-races-stale-presence-removal", held && !present)
+	vKnown("C06-resubscribe-races-stale-presence-removal", other == 1 && held && !present)
 	w.checkAll()
 }
